@@ -45,6 +45,10 @@ const (
 	// tests use for streaming stores) that removes items but neither adds/updates an item nor
 	// fetches a value is committed as "nothing to do": the removals are dropped silently.
 	slugRemoveOnly = "remove-only-transaction-not-committed"
+	// On an actively persisted store, a value that was fetched earlier in the same transaction is
+	// returned EMPTY (no error) when it is fetched again after an insert/remove shifted the
+	// node's slots: the item tracker keeps pointers into the slot array.
+	slugRefetch = "refetch-after-slot-shift-returns-empty"
 	// Largest chunk that the JSON decoder always takes in one Read call (it guarantees at
 	// least 512 free bytes before every Read). Only used to carve out the listed finding.
 	alwaysWholeChunk = 512
@@ -114,26 +118,47 @@ var keyUniverse = []string{"a", "ab", "b", "b.", "k1", "k10", "k2", "zz"}
 
 func genProgram(t *rapid.T, rec *stats.Rec) program {
 	knownReader, knownRemoveOnly := stats.Known(propID, slugReader), stats.Known(propID, slugRemoveOnly)
+	knownRefetch := stats.Known(propID, slugRefetch)
 	p := program{
 		Slot:   rapid.SampledFrom([]int{50, 50, 52, 64, 100}).Draw(t, "slot"),
 		Medium: rapid.IntRange(0, 3).Draw(t, "dataSize") == 0,
 		Keys:   rapid.SliceOfNDistinct(rapid.SampledFrom(keyUniverse), 1, 4, rapid.ID[string]).Draw(t, "keys"),
 	}
 	budget := stats.Pick(3<<19, 12<<20) // bytes of encoded values per case
-	entries := map[string][]value{} // mirror of the model the run will keep
+	entries := map[string][]value{}     // mirror of the model the run will keep
 	present := func(k string) bool { _, ok := entries[k]; return ok }
 	nTx := rapid.SampledFrom([]int{1, 2, 2, 3, 3, 4}).Draw(t, "nTxns")
 	for ti := 0; ti < nTx; ti++ {
 		tx := txn{Reopen: ti > 0 && rapid.Bool().Draw(t, "reopen")}
 		nOps := rapid.IntRange(1, 4).Draw(t, "nOps")
 		removes, tracked := false, false // tracked: an item is added/updated or a value is fetched
-		for oi := 0; oi < nOps; oi++ {
-			o := op{Key: rapid.SampledFrom(p.Keys).Draw(t, "key")}
-			if ti == 0 && oi == 0 {
-				o.Kind = rapid.SampledFrom([]opKind{opAdd, opAdd, opUpsert}).Draw(t, "firstOp")
-			} else {
-				o.Kind = rapid.SampledFrom([]opKind{opAdd, opAdd, opAdd, opUpdate, opUpdate, opUpdate, opUpdate,
-					opUpsert, opUpsert, opRemove, opRemove, opRead, opRead, opRead}).Draw(t, "op")
+		rt := newReadTrack()
+		// sometimes read one entry before and after the other steps of the transaction
+		sandwich := ""
+		if ti > 0 && len(entries) > 0 && rapid.IntRange(0, 3).Draw(t, "sandwich") == 0 {
+			var cand []string
+			for _, k := range p.Keys {
+				if present(k) {
+					cand = append(cand, k)
+				}
+			}
+			sandwich = cand[rapid.IntRange(0, len(cand)-1).Draw(t, "sandwichKey")]
+		}
+		for oi := 0; oi < nOps+2; oi++ {
+			var o op
+			switch {
+			case oi == 0 || oi == nOps+1:
+				if sandwich == "" {
+					continue
+				}
+				o = op{Kind: opRead, Key: sandwich}
+			case ti == 0 && oi == 1:
+				o = op{Key: rapid.SampledFrom(p.Keys).Draw(t, "key"),
+					Kind: rapid.SampledFrom([]opKind{opAdd, opAdd, opUpsert}).Draw(t, "firstOp")}
+			default:
+				o = op{Key: rapid.SampledFrom(p.Keys).Draw(t, "key"),
+					Kind: rapid.SampledFrom([]opKind{opAdd, opAdd, opAdd, opUpdate, opUpdate, opUpdate, opUpdate,
+						opUpsert, opUpsert, opRemove, opRemove, opRead, opRead, opRead}).Draw(t, "op")}
 				// steer a little towards steps that do something: most updates/removes/reads
 				// hit an existing key, most adds a missing one
 				if rapid.IntRange(0, 3).Draw(t, "steer") != 0 {
@@ -157,26 +182,31 @@ func genProgram(t *rapid.T, rec *stats.Rec) program {
 				if !present(o.Key) {
 					entries[o.Key] = o.Vals
 					tracked = true
+					rt.changes++
 				}
 			case opUpdate:
 				o.Vals = genEntry(t, &budget)
 				if present(o.Key) {
 					entries[o.Key] = o.Vals
 					tracked = true
+					rt.changes++
 				}
 			case opUpsert:
 				o.Vals = genEntry(t, &budget)
 				entries[o.Key] = o.Vals
 				tracked = true
+				rt.changes++
 			case opRemove:
 				if present(o.Key) {
 					removes = true
+					rt.changes++
 				}
 				delete(entries, o.Key)
 			case opRead:
 				o.ViaItem = rapid.Bool().Draw(t, "viaItem")
-				if present(o.Key) && !(knownReader && hasBigChunk(entries[o.Key])) {
+				if present(o.Key) && skipRead(knownReader, knownRefetch, p.Medium, entries[o.Key], rt.reread(o.Key)) == "" {
 					tracked = true
+					rt.readAt[o.Key] = rt.changes
 				}
 			}
 			tx.Ops = append(tx.Ops, o)
@@ -185,7 +215,7 @@ func genProgram(t *rapid.T, rec *stats.Rec) program {
 			// listed finding: leave exactly that class by giving the transaction one write
 			rec.Exclude("remove-only transaction on an actively persisted store: an upsert was appended (listed: " + slugRemoveOnly + ")")
 			o := op{Kind: opUpsert, Key: rapid.SampledFrom(p.Keys).Draw(t, "extraKey"), Vals: genEntry(t, &budget)}
-			entries[o.Key] = o.Vals
+			entries[o.Key] = o.Vals // (no read follows it, so rt needs no update)
 			tx.Ops = append(tx.Ops, o)
 		}
 		p.Txns = append(p.Txns, tx)
@@ -196,12 +226,14 @@ func genProgram(t *rapid.T, rec *stats.Rec) program {
 // ---- environment
 
 type env struct {
-	ctx   context.Context
-	dir   string
-	name  string
-	so    sop.StoreOptions
-	known bool // the reader finding is listed: its class is carved out by construction
-	rec   *stats.Rec
+	ctx  context.Context
+	dir  string
+	name string
+	so   sop.StoreOptions
+	rec  *stats.Rec
+	// listed findings whose classes are carved out by construction
+	knownReader, knownRefetch bool
+	medium                    bool
 }
 
 func newEnv(p program, rec *stats.Rec) (*env, error) {
@@ -216,8 +248,9 @@ func newEnv(p program, rec *stats.Rec) (*env, error) {
 		size = sop.MediumData
 	}
 	return &env{ctx: context.Background(), dir: dir, name: name, rec: rec,
-		so:    sop.ConfigureStore(name, true, p.Slot, "", size, ""),
-		known: stats.Known(propID, slugReader)}, nil
+		so:          sop.ConfigureStore(name, true, p.Slot, "", size, ""),
+		medium:      p.Medium,
+		knownReader: stats.Known(propID, slugReader), knownRefetch: stats.Known(propID, slugRefetch)}, nil
 }
 
 func (e *env) close() { os.RemoveAll(e.dir) }
@@ -242,6 +275,33 @@ func (e *env) open(tr sop.Transaction, reopen bool) (*sd.StreamingDataStore[stri
 	return infs.NewStreamingDataStore[string](e.ctx, e.so, tr, nil)
 }
 
+// readTrack follows, inside one writing transaction, which entries were read through the
+// decoder and whether the store changed since (used by the generator's mirror and by the run).
+type readTrack struct {
+	readAt  map[string]int
+	changes int
+}
+
+func newReadTrack() *readTrack { return &readTrack{readAt: map[string]int{}} }
+
+// reread: the entry was read earlier in this transaction and something was added, updated or
+// removed since.
+func (r *readTrack) reread(k string) bool {
+	at, ok := r.readAt[k]
+	return ok && r.changes > at
+}
+
+// Which decoder reads are carved out because a finding is listed. Returns the reason or "".
+func skipRead(knownReader, knownRefetch, medium bool, vals []value, reread bool) string {
+	if knownReader && hasBigChunk(vals) {
+		return "decoder read-back of an entry with a chunk > 512 B (listed: " + slugReader + ")"
+	}
+	if knownRefetch && !medium && reread {
+		return "second decoder read of an entry in one transaction on an actively persisted store after a change in between (listed: " + slugRefetch + ")"
+	}
+	return ""
+}
+
 func hasBigChunk(vals []value) bool {
 	for _, v := range vals {
 		if v.enc > alwaysWholeChunk {
@@ -252,40 +312,42 @@ func hasBigChunk(vals []value) bool {
 }
 
 // readEntry checks one key through the public API against the model.
-func (e *env) readEntry(s *sd.StreamingDataStore[string], key string, want []value, present, viaItem bool) error {
+// reread: see readTrack (always false outside a writing transaction). The first result reports
+// whether values were actually fetched through the decoder.
+func (e *env) readEntry(s *sd.StreamingDataStore[string], key string, want []value, present, viaItem, reread bool) (bool, error) {
 	found, err := s.FindOne(e.ctx, key)
 	if err != nil {
-		return fmt.Errorf("FindOne(%q): %v", key, err)
+		return false, fmt.Errorf("FindOne(%q): %v", key, err)
 	}
 	if found != present {
-		return fmt.Errorf("FindOne(%q) = %v, the model says present=%v", key, found, present)
+		return false, fmt.Errorf("FindOne(%q) = %v, the model says present=%v", key, found, present)
 	}
 	if !present {
-		return nil
+		return false, nil
 	}
-	if e.known && hasBigChunk(want) {
-		e.rec.Exclude("decoder read-back of an entry with a chunk > 512 B (listed: " + slugReader + ")")
-		return nil
+	if why := skipRead(e.knownReader, e.knownRefetch, e.medium, want, reread); why != "" {
+		e.rec.Exclude(why)
+		return false, nil
 	}
 	var dec *json.Decoder
 	if viaItem {
 		it, err := s.GetCurrentItem(e.ctx)
 		if err != nil {
-			return fmt.Errorf("GetCurrentItem(%q): %v", key, err)
+			return false, fmt.Errorf("GetCurrentItem(%q): %v", key, err)
 		}
 		if it.Key != key {
-			return fmt.Errorf("GetCurrentItem after FindOne(%q) has key %q", key, it.Key)
+			return false, fmt.Errorf("GetCurrentItem after FindOne(%q) has key %q", key, it.Key)
 		}
 		dec = it.Value
 	} else {
 		if dec, err = s.GetCurrentValue(e.ctx); err != nil {
-			return fmt.Errorf("GetCurrentValue(%q): %v", key, err)
+			return false, fmt.Errorf("GetCurrentValue(%q): %v", key, err)
 		}
 	}
 	if dec == nil {
-		return fmt.Errorf("no decoder for %q", key)
+		return false, fmt.Errorf("no decoder for %q", key)
 	}
-	return decodeAll(dec, want, fmt.Sprintf("entry %q read through the store's decoder", key))
+	return true, decodeAll(dec, want, fmt.Sprintf("entry %q read through the store's decoder", key))
 }
 
 // decodeAll: the stream holds exactly the wanted values, in order, then io.EOF.
@@ -336,7 +398,7 @@ func (e *env) verify(p program, m *model, labels map[string]bool) error {
 	}
 	for i, k := range keyUniverse {
 		vals, present := m.entries[k]
-		if err := e.readEntry(s, k, vals, present, i%2 == 1); err != nil {
+		if _, err := e.readEntry(s, k, vals, present, i%2 == 1, false); err != nil {
 			return fmt.Errorf("after commit: %v", err)
 		}
 	}
@@ -517,6 +579,8 @@ func (e *env) run(p program) (map[string]bool, bool, error) {
 		if err != nil {
 			return nil, false, fmt.Errorf("txn %d: opening the store (reopen=%v): %v", ti, tx.Reopen, err)
 		}
+		rt := newReadTrack()
+		removed, tracked := false, false
 		for oi, o := range tx.Ops {
 			at := fmt.Sprintf("txn %d op %d %s(%q)", ti, oi, o.Kind, o.Key)
 			old, present := m.entries[o.Key]
@@ -553,6 +617,8 @@ func (e *env) run(p program) (map[string]bool, bool, error) {
 				labels["add"] = true
 				noteVals(o.Vals)
 				m.entries[o.Key] = o.Vals
+				rt.changes++
+				tracked = true
 			case opUpdate:
 				enc, err := s.Update(e.ctx, o.Key)
 				if err != nil {
@@ -580,6 +646,8 @@ func (e *env) run(p program) (map[string]bool, bool, error) {
 				noteVals(o.Vals)
 				noteReplace(old, o.Vals)
 				m.entries[o.Key] = o.Vals
+				rt.changes++
+				tracked = true
 			case opUpsert:
 				enc, err := s.Upsert(e.ctx, o.Key)
 				if err != nil {
@@ -602,6 +670,8 @@ func (e *env) run(p program) (map[string]bool, bool, error) {
 					labels["upsertNew"] = true
 				}
 				m.entries[o.Key] = o.Vals
+				rt.changes++
+				tracked = true
 			case opRemove:
 				ok, err := s.Remove(e.ctx, o.Key)
 				if err != nil {
@@ -623,19 +693,33 @@ func (e *env) run(p program) (map[string]bool, bool, error) {
 						labels["removeBesideOtherEntries"] = true
 					}
 					delete(m.entries, o.Key)
+					rt.changes++
+					removed = true
 				} else {
 					labels["removeMissingKey"] = true
 				}
 			case opRead:
-				if err := e.readEntry(s, o.Key, old, present, o.ViaItem); err != nil {
+				reread := rt.reread(o.Key)
+				performed, err := e.readEntry(s, o.Key, old, present, o.ViaItem, reread)
+				if err != nil {
 					return nil, false, fmt.Errorf("%s (inside the writing transaction): %v", at, err)
 				}
-				if present {
+				if performed {
 					labels["readInWritingTxn"] = true
+					if reread {
+						labels["rereadAfterChange"] = true
+					}
+					rt.readAt[o.Key] = rt.changes
+					tracked = true
+				} else if present {
+					labels["readSkippedForListedFinding"] = true
 				} else {
 					labels["readMissingKey"] = true
 				}
 			}
+		}
+		if removed && !tracked {
+			labels["removeOnlyTxn"] = true
 		}
 		if err := tr.Commit(e.ctx); err != nil {
 			return nil, false, fmt.Errorf("txn %d: Commit: %v", ti, err)
@@ -693,7 +777,7 @@ var labelOrder = []string{
 	"updateShorter", "updateLonger", "updateSameCount", "updateBesideOtherEntries",
 	"remove", "removeMultiChunk", "removeBesideOtherEntries", "removeMissingKey", "removeMissingKeyReportedTrue",
 	"encoderForMissingKey",
-	"readInWritingTxn", "readMissingKey",
+	"readInWritingTxn", "rereadAfterChange", "readMissingKey", "readSkippedForListedFinding", "removeOnlyTxn",
 	"kind:str", "kind:bytes", "kind:doc", "kind:int",
 	"value>512B", "value>4096B", "value>=64KiB", "value>=1MiB", "firstValue>512B", "laterValue>512B",
 	"boundary512", "boundary4096", "boundaryDecoderCap",
